@@ -76,7 +76,18 @@ pub fn check_bytes(o: &mut Outcome, d: &[u8]) {
         }
         n
     };
+    // the same bytes are also presented as a sub-slice that starts at another memory alignment (offset 1..7 inside a fresh
+    // buffer): the result must not depend on where the input sits in memory
+    let k = 1 + (d.len() * 7 + d.iter().take(16).map(|b| *b as usize).sum::<usize>()) % 7;
+    let mut shifted = vec![0xa5u8; k];
+    shifted.extend_from_slice(d);
     for (name, f) in [("avcc", annexb_to_avcc as fn(&[u8]) -> Vec<u8>), ("hvcc", hevc_annexb_to_hvcc as fn(&[u8]) -> Vec<u8>)] {
+        if let Ok(got) = guarded(|| f(&shifted[k..])) {
+            if got != want {
+                o.fail("annexb", format!("annexb.{}.alignment", name), format!("{}({}) differs when the input starts at address = {} (mod 8)", name, hex(d, 40), k));
+                return;
+            }
+        }
         match guarded(|| f(d)) {
             Err(p) => {
                 o.aborted_by_panic = Some(p);
@@ -519,6 +530,23 @@ fn replay_adts(v: &Value) -> Result<Outcome, String> {
     Ok(eval_adts(&b))
 }
 
+/// Re-framing as the muxer performs it over a whole recording (state carried from frame to frame must not change it): the
+/// long / large recordings, judged with C01's reader for the stored sample bytes only.
+fn eval_long_reframing(c: &crate::scenario::ValidCase) -> Outcome {
+    let inner = crate::props::c01::eval(c);
+    let mut o = Outcome::default();
+    o.nontrivial = inner.nontrivial;
+    o.aborted_by_panic = inner.aborted_by_panic;
+    for mut v in inner.violations {
+        if v.clause == "bytes" {
+            v.clause = "stored".into();
+            v.sig = format!("stored.{}", v.sig);
+            o.violations.push(v);
+        }
+    }
+    o
+}
+
 pub fn def() -> PropertyDef {
     PropertyDef {
         fuzz_targets: &["c14_annexb"],
@@ -538,6 +566,7 @@ pub fn def() -> PropertyDef {
             Box::new(PSub { name: "constructive", quick: 20000, thorough: 800000, strat: constructive_strategy, eval: eval_constructive }),
             Box::new(PSub { name: "random_bytes", quick: 60000, thorough: 600000, strat: random_strategy, eval: eval_random }),
             Box::new(ESub { name: "adts_exhaustive", run: run_adts, replay: replay_adts }),
+            Box::new(LSub { name: "long_recordings", cases: crate::scenario::long_cases_all, eval: eval_long_reframing, note: crate::scenario::LONG_NOTE }),
             Box::new(LSub {
                 name: "large_inputs",
                 cases: large_cases,
